@@ -267,10 +267,13 @@ def shrink_and_confirm(prop, viol_rec, hashseed, tier, seed, log):
     core.write_json(final, rep)
   os.remove(raw)
   # Confirm in a fresh interpreter: same class must come back.
-  p = subprocess.run([PY, WORKER, 'replay', final], cwd=core.VERIF_DIR,
-                     env=worker_env(hashseed), capture_output=True,
-                     timeout=900)
-  text = p.stdout.decode(errors='replace')
+  try:
+    p = subprocess.run([PY, WORKER, 'replay', final], cwd=core.VERIF_DIR,
+                       env=worker_env(hashseed), capture_output=True,
+                       timeout=900)
+    text = p.stdout.decode(errors='replace')
+  except subprocess.TimeoutExpired:
+    text = 'REPLAY-MISMATCH replay timed out'
   confirmed = (('violation class: ' + rep['violation']['cls']) in text and
                'REPLAY-MISMATCH' not in text and 'DIFFERENT' not in text)
   return final, rep, confirmed, text
@@ -592,5 +595,25 @@ def main():
   return run_check(args.prop, args.tier, seed)
 
 
+def _guarded_main():
+  """An exception of the DRIVER (fork failure, full disk, a replay that timed
+  out) must never look like a verdict: Python's default exit status for an
+  uncaught exception is 1, the VIOLATION code."""
+  try:
+    return main()
+  except SystemExit:
+    raise
+  except KeyboardInterrupt:
+    print('HARNESS-ERROR interrupted', flush=True)
+    return 2
+  except BaseException as e:  # pylint: disable=broad-except
+    import traceback  # pylint: disable=g-import-not-at-top
+    traceback.print_exc()
+    print('HARNESS-ERROR driver exception %s: %s' % (
+        type(e).__name__, str(e).replace('VIOLATION', 'violation')[:300]),
+          flush=True)
+    return 2
+
+
 if __name__ == '__main__':
-  sys.exit(main())
+  sys.exit(_guarded_main())
